@@ -166,6 +166,15 @@ BUILT = {
             'those of the base rendering.',
             'Differential oracle against the base rendering of the same program; only instructions are joined on one line.',
             'DESIGN.md 3/C18'),
+    'C14': ('fault_enumeration',
+            'deviation-bounded enumeration of corruptions of valid programs with invariants checked on every execution',
+            'Six base programs that together use every line kind; every single deviation from the menu (drop / duplicate / garble each '
+            'token, drop / duplicate each line, insert a zero-length directive at each position, the four must-reject replacements, '
+            'expression positions filled with 8..64 tokens) under six output configurations with a pre-seeded output file; thorough: '
+            'every pair of line-level deviations. Invariants: termination, no image created or altered on failure, image present on '
+            'success, must-reject deviations never succeed.',
+            'Termination judged by a 10 s budget (normal runs ~2 ms) and reported only if the real CLI also exceeds 60 s.',
+            'DESIGN.md 3/C14'),
 }
 
 NOT_BUILT_REASON = 'check not built yet (work in progress in this session); no claim made'
